@@ -8,7 +8,7 @@ N = {"quick": 450, "thorough": 6000}
 RULE = ("(a) the abstract response domain instantiated to concrete protobuf messages - per ProtocolMessenger method: sender error, nil message, "
         "7 record shapes (absent / matching / other value / other key / empty / key only / random) x 20 closer-peer list shapes built from 16 "
         "peer-record shapes (no address, empty id, undecodable only, mixed, exactly at / one under / one over the 8 KiB limit with 1-byte and "
-        "10-byte connection values, overflow in the middle, single oversized address, id over the limit, 700+ small addresses, nil entry) "
+        "10-byte connection values, overflow in the middle, single oversized address, id over the limit, 230+ small addresses, nil entry) "
         "x provider-list shapes x message types; (b) random structured replies and random / truncated / bit-flipped bytes decoded by the real "
         "proto.Unmarshal; (c) real lookups whose seed answers with 0..3K+37 closer peers for K in {1,2,3,5,20} (self, target, duplicates, "
         "filtered peers); (d) the real internal/net message sender on scripted in-memory streams in a synctest bubble: 7 read behaviours "
